@@ -1,10 +1,12 @@
 import DilithiumVerif.Props.C08
 import DilithiumVerif.Lemmas.VerifySpec
+import DilithiumVerif.Lemmas.VerifyFips
 /-
   C03 — Verification decides exactly as the specification (strict decoding, bounds).
   Part 1: the decision logic stated outright on the model of `verify` — which inputs are rejected whatever
-  the challenge hash says, and what acceptance means.  (The refinement of the arithmetic path to the FIPS 204
-  ring operations is the subject of C13 and is not finished: partial.)
+  the challenge hash says, and what acceptance means.
+  Part 2: `verify_iff_spec` — `verify` returns true exactly when FIPS 204 Alg. 8 / Dilithium 3.1 Verify accepts
+  (`VerifyFips.IsAccepted`, stated with specification-level objects only), with strict decoding as a theorem.
 -/
 namespace DV.C03
 open DV
@@ -93,5 +95,40 @@ theorem verify_decides_as_spec (p : Params) (hp : p ∈ allParams) (sig m pk : L
         (if ∃ a ∈ z, ∃ x ∈ a, (p.gamma1 : Int) - p.beta ≤ C18.iabs x then .ok false
          else compute_mu trh p.trBytes m >>= fun mu => compute_ctilde p mu (k_pack_w1 p.lvl w1) >>= fun c2 => .ok (decide (c = c2))) :=
   verify_decision p hp sig m pk hpk hsl hb rho t1 hupk mat hme c z h husig cp hcp
+
+/-! ## Verification = the specification's Verify, for arbitrary bytes -/
+
+open DV.VerifyFips in
+/-- **`verify` decides exactly as the specification.** For each of the six parameter sets, every public key of the
+    standard length, every message (for ML-DSA: the framed M′ of C07) and every byte string offered as a signature — any
+    length, any content: if `verify` returns b then b = true ⇔ `IsAccepted p pk M σ`, i.e. ⇔ σ = sigEncode(c̃, z, h) for a
+    z in range and a 0/1 hint vector h of weight ≤ ω (strict decoding: no other byte string is accepted), pk =
+    pkEncode(ρ, t1), ‖z‖∞ < γ1 − β and c̃ = H(H(H(pk) ‖ M) ‖ w1Encode(UseHint(h, A·z − c·t1·2^13))) with A = ExpandA(ρ)
+    and c = SampleInBall(c̃) as functions of the SHAKE streams. -/
+theorem verify_iff_spec (p : Params) (hp : p ∈ allParams) (sig m pk : List Nat) (hpk : pk.length = p.pkBytes)
+    (hpb : ∀ b ∈ pk, b < 256) (hb : ∀ b ∈ sig, b < 256) (b : Bool) (hv : verify p sig m pk = .ok b) :
+    b = true ↔ IsAccepted p pk m sig :=
+  verify_iff_accepted p hp sig m pk hpk hpb hb b hv
+
+open DV.HintCodec in
+/-- **strict hint decoding** (FIPS 204 Alg. 21): whenever the decoder accepts an (ω + k)-byte hint section, that section
+    is HintBitPack of the returned 0/1 vector — indices strictly increasing within each polynomial, running totals
+    non-decreasing and ≤ ω, unused index bytes zero; every other byte string is refused -/
+theorem hint_decoder_is_strict (omega : Nat) (ho : omega ≤ 255) (hs : List Nat) (k : Nat) (H : List Poly)
+    (h : unpack_hints_go omega hs k 0 0 [] = .ok (some H)) (hl : hs.length = omega + k) :
+    H.length = k ∧ (∀ hp ∈ H, Bits hp) ∧ (idxOf H).length ≤ omega ∧
+      hs = idxOf H ++ List.replicate (omega - (idxOf H).length) 0 ++ cumsOf 0 H :=
+  HintDecode.accepted_is_canonical omega ho hs k H h hl
+
+open DV.VerifyFips DV.EncodeSpec DV.HintCodec in
+/-- **sigDecode / pkDecode are the inverses of the encoders on every byte string of the right length** -/
+theorem decoders_are_inverse_of_encoders (p : Params) (hp : p ∈ allParams) :
+    (∀ pk rho t1, pk.length = p.pkBytes → (∀ b ∈ pk, b < 256) → unpack_pk p pk = .ok (rho, t1) →
+        rho.length = SEEDBYTES ∧ t1.length = p.k ∧ (∀ a ∈ t1, Complete.T1OK a) ∧ pk = pkEncode rho t1) ∧
+    (∀ sig ct z h, sig.length = p.sigBytes → (∀ b ∈ sig, b < 256) → unpack_sig p sig = .ok (true, ct, z, h) →
+        ct.length = p.ctilde ∧ z.length = p.l ∧ (∀ a ∈ z, a.length = 256 ∧ ∀ x ∈ a, -(gamma1Of p.lvl) < x ∧ x ≤ gamma1Of p.lvl) ∧
+        h.length = p.k ∧ (∀ a ∈ h, Bits a) ∧ (idxOf h).length ≤ p.omega ∧ sig = sigEncode p.lvl p.omega ct z h) :=
+  ⟨fun pk rho t1 h1 h2 h3 => unpack_pk_spec p hp pk h1 h2 rho t1 h3,
+   fun sig ct z h h1 h2 h3 => unpack_sig_spec p hp sig h1 h2 ct z h h3⟩
 
 end DV.C03
